@@ -137,6 +137,25 @@ def matches_known(o, prop, known):
     return None
 
 
+def check_anchors(ctx, mod):
+    """the rules name data members, functions and enumerators of the repository (in guard keys and in the reference
+    tables; engine/spec/anchors.json lists the ones that existed when the rules were written). If one of them no longer
+    exists anywhere in the code it was renamed or removed: the rules would look for writes, calls and guards that cannot be
+    there and report them as missing. That is a broken analysis, not a violation."""
+    import mkanchors
+    p = os.path.join(VERIF, 'engine', 'spec', 'anchors.json')
+    if not os.path.isfile(p):
+        return
+    want = json.load(open(p)).get(ctx.prop, {})
+    members, funcs, enums = mkanchors.code_names(ctx.fb)
+    missing = [('data member', m) for m in want.get('members', []) if m not in members] + \
+        [('function', f) for f in want.get('functions', []) if f not in funcs] + \
+        [('enumerator', e) for e in want.get('enumerators', []) if e not in enums]
+    if missing:
+        raise AnalysisBroken('%s named by the rules of %s no longer exist(s) in the repository code (renamed or removed): the '
+                             'rules cannot be evaluated' % (', '.join('%s %s' % m for m in missing[:8]), ctx.prop))
+
+
 def run_property(prop, tier, seed, only=None, quiet=False):
     t0 = time.time()
     ctx = Ctx(prop, tier, seed)
@@ -151,6 +170,7 @@ def run_property(prop, tier, seed, only=None, quiet=False):
             sys.stdout.flush()
 
     try:
+        check_anchors(ctx, mod)
         mod.run(ctx)
         for rid, r in sorted(ctx.rules.items()):
             if r['count'] < r['min'] and not any(o['rule'] == rid and o['status'] == 'violated' for o in ctx.obligations):
